@@ -50,7 +50,7 @@ def particles(rng, n, dup_share=0.5):
 
 # ------------------------------------------------------------------ cores
 def gen_sites(rng, tier):
-    for p in particles(rng, n_cases(tier, 400, 6000)):
+    for p in particles(rng, n_cases(tier, 300, 6000)):
         yield {"particle": p}
 
 
@@ -69,7 +69,7 @@ def canon_sites(o):
 
 def stage_gen(stage):
     def gen(rng, tier):
-        for p in particles(rng, n_cases(tier, 300, 4000), dup_share=0.7):
+        for p in particles(rng, n_cases(tier, 200, 4000), dup_share=0.7):
             try:
                 sites = G.real_xsd_sites(G.particle_xsd(p))
             except Exception:  # noqa: BLE001
@@ -100,7 +100,7 @@ def stage_impl(stage):
 
 
 def gen_occurs(rng, tier):
-    for p in particles(rng, n_cases(tier, 300, 4000), dup_share=0.7):
+    for p in particles(rng, n_cases(tier, 200, 4000), dup_share=0.7):
         try:
             yield {"sites": G.real_xsd_sites(G.particle_xsd(p))}
         except Exception:  # noqa: BLE001
@@ -221,7 +221,7 @@ def gschemas(rng, n):
 
 
 def gen_gsites(rng, tier):
-    for sch in gschemas(rng, n_cases(tier, 300, 3000)):
+    for sch in gschemas(rng, n_cases(tier, 200, 3000)):
         yield sch
 
 
@@ -242,7 +242,7 @@ def canon_gsites(o):
 
 def gen_gcalc(rng, tier):
     """the classes of a schema after the real UNGROUP step, as the input of one CalculateAttributePaths handler"""
-    for sch in gschemas(rng, n_cases(tier, 300, 3000)):
+    for sch in gschemas(rng, n_cases(tier, 200, 3000)):
         try:
             yield {"classes": G.renumber_classes(G.real_schema_classes(G.gschema_xsd(sch)))}
         except Exception:  # noqa: BLE001
@@ -331,8 +331,8 @@ def gen_attr_sanitize(rng, tier):
                             if xt and not ia:
                                 continue
                             out.append({"is_attribute": ia, "min": mn, "max": mx, "default": d, "fixed": fx and d is not None, "any_obj": ao, "xsi_type": xt})
-    for i in range(0, len(out), 16):
-        yield {"attrs": out[i:i + 16]}
+    for i in range(0, len(out), 4):
+        yield {"attrs": out[i:i + 4]}
     for _ in range(n_cases(tier, 50, 3000)):
         yield {"attrs": [rng.choice(out) for _ in range(8)]}
 
@@ -384,7 +384,7 @@ def impl_override(a):
 
 def gen_restrict(rng, tier):
     """base: 1..5 elements; own: a subsequence of the base names re-declared with any bounds, sometimes a new name"""
-    for _ in range(n_cases(tier, 250, 3000)):
+    for _ in range(n_cases(tier, 200, 3000)):
         names = rng.sample(list("abcdefg"), rng.randint(1, 5))
         base = [G.gen_oattr(rng, n) for n in names]
         own = [G.gen_oattr(rng, n) for n in names if rng.random() < 0.6]
@@ -484,7 +484,7 @@ def gen_subst_case(rng):
 
 
 def gen_subst_sites(rng, tier):
-    for _ in range(n_cases(tier, 250, 2500)):
+    for _ in range(n_cases(tier, 200, 2500)):
         a = gen_subst_case(rng)
         if a is None:
             continue
@@ -530,20 +530,22 @@ def gen_ns(rng, tier):
     # bounded-exhaustive: one declaration of every shape under every form default, target namespace bound as default / prefix / not at all
     forms = [None, "qualified", "unqualified"]
     for tns, default, prefixes in (("urn:t", "urn:t", {}), ("urn:t", None, {"t": "urn:t"}), ("urn:t", None, {}), (None, None, {}),
-                                   ("urn:t", "urn:o", {"t": "urn:t", "o": "urn:o"}), ("urn:t", "urn:o", {"o": "urn:o"})):
+                                   ("urn:t", "urn:o", {"t": "urn:t", "o": "urn:o"}), ("urn:t", "urn:o", {"o": "urn:o"}),
+                                   ("urn:t", None, {"cham": "1"}), ("urn:t", "urn:o", {"cham": "1", "o": "urn:o"})):
+        chameleon = prefixes.pop("cham", None) is not None if "cham" in prefixes else False
         for ef in forms:
             for af in forms:
-                ctx = {"tns": tns, "chameleon": False, "default": default, "prefixes": prefixes, "eform": ef, "aform": af}
+                ctx = {"tns": tns, "chameleon": chameleon, "default": default, "prefixes": dict(prefixes), "eform": ef, "aform": af}
                 decls = []
                 for attr in (False, True):
                     for i, f in enumerate(forms):
                         decls.append({"attr": attr, "kind": "local", "name": "abc"[i], "form": f, "tnsattr": None})
-                    if tns and (default == tns or "t" in prefixes):
-                        decls.append({"attr": attr, "kind": "ref", "prefix": None if default == tns else "t", "name": "ha" if attr else "h"})
+                    if tns and (default == tns or "t" in prefixes or (chameleon and not default)):
+                        decls.append({"attr": attr, "kind": "ref", "prefix": None if (default == tns or chameleon) else "t", "name": "ha" if attr else "h"})
                     if "o" in prefixes:
                         decls.append({"attr": attr, "kind": "ref", "prefix": "o", "name": "ga" if attr else "g"})
                 yield {"ctx": ctx, "decls": decls}
-    for _ in range(n_cases(tier, 250, 4000)):
+    for _ in range(n_cases(tier, 200, 4000)):
         ctx = G.gen_ns_ctx(rng)
         decls = G.gen_ns_decls(rng, ctx)
         if decls:
@@ -581,7 +583,7 @@ def impl_ns_meta(a):
 
 def gen_ns_fields(rng, tier):
     for i, a in enumerate(gen_ns(rng, tier)):
-        if i >= n_cases(tier, 120, 900):
+        if i >= n_cases(tier, 100, 900):
             break
         yield a
 
@@ -593,43 +595,146 @@ def impl_ns_fields(a):
         return err("GEN:" + type(e).__name__)
 
 
+# ------------------------------------------------------------------ input distributions (evidence: coverage.distribution)
+def _depth(p):
+    if "elem" in p:
+        return 0
+    return 1 + max((_depth(k) for k in (p.get("seq") or p.get("choice"))[2]), default=0)
+
+
+def _occ_class(mn, mx):
+    return ("opt" if mn == 0 else "req" if mn == 1 else "min2+") + ("-once" if mx == 1 else "-unb" if mx == MAXSIZE else "-max0" if mx == 0 else "-bounded")
+
+
+def classify_particle(a, out):
+    p = a["particle"]
+    names = G.particle_names(p)
+    kinds = set()
+
+    def walk(q):
+        if "elem" in q:
+            return
+        k = "seq" if "seq" in q else "choice"
+        mn, mx, kids = q[k]
+        kinds.add(k + ("*" if mx > 1 else ""))
+        for c in kids:
+            walk(c)
+
+    walk(p)
+    return f"depth={_depth(p)}/{'dup' if len(set(names)) != len(names) else 'distinct'}/{'+'.join(sorted(kinds))}" + ("/err" if isinstance(out, dict) and "err" in out else "")
+
+
+def classify_sites(a, out):
+    ss = a["sites"]
+    names = [s["name"] for s in ss]
+    dup = len(set(names)) != len(names)
+    ch = sum(1 for s in ss if s.get("choice"))
+    eff = any((s.get("choice") or 0) < 0 for s in ss)
+    deep = max((len(s["path"]) for s in ss), default=0)
+    return f"n={min(len(ss), 6)}/{'dup' if dup else 'distinct'}/choice={'some' if ch else 'none'}{'+effective' if eff else ''}/pathlen={min(deep, 4)}" + ("/err" if isinstance(out, dict) and "err" in out else "")
+
+
+def classify_gschema(a, out):
+    js = json.dumps(a)
+    nested = '"ref"' in json.dumps(a["defs"])
+    names = [n for t in a["types"] for n in G.gparticle_names(a, t)]
+    per_type_dup = any(len(set(G.gparticle_names(a, t))) != len(G.gparticle_names(a, t)) for t in a["types"])
+    return f"defs={len(a['defs'])}/{'nested' if nested else 'flat'}/{'all' if chr(34) + 'all' + chr(34) in js else 'noall'}/{'dup' if per_type_dup else 'distinct'}" + ("/err" if isinstance(out, dict) and "err" in out else "")
+
+
+def classify_gclasses(a, out):
+    shared = set()
+    seen = {}
+    for i, cls in enumerate(a["classes"]):
+        for s_ in cls:
+            for e in s_["path"]:
+                if e[1] in seen and seen[e[1]] != i:
+                    shared.add(e[1])
+                seen.setdefault(e[1], i)
+    return f"classes={len(a['classes'])}/shared-ids={'yes' if shared else 'no'}"
+
+
+def classify_decls(a, out):
+    """the rarest-looking declaration of the case: kind, use / occurrence class, default, fixed"""
+    ks = []
+    for d in a["decls"]:
+        if d["kind"] == "attribute":
+            ks.append("A:" + str(d["use"]) + ("+d" if d["default"] is not None else "") + ("+f" if d["fixed"] is not None else "") + (":untyped" if d["type"] is None else ""))
+        else:
+            ks.append("E:" + _occ_class(d["min"], d["max"]) + ("+d" if d["default"] is not None else "") + ("+f" if d["fixed"] is not None else "") + (":untyped" if d["type"] is None else ""))
+    return sorted(ks, key=lambda k: (-len(k), k))[0]
+
+
+def classify_sanitize(a, out):
+    ks = set()
+    for g in a["attrs"]:
+        lst = g["max"] > 1
+        if not g["is_attribute"] and g["default"] is None and g["any_obj"] and not lst:
+            ks.add("reset-required")
+        elif g["default"] is not None and (g.get("xsi_type") or lst or (not g["is_attribute"] and g["min"] == 0)):
+            ks.add("reset-default")
+        else:
+            ks.add("keep")
+    return "+".join(sorted(ks))
+
+
+def classify_override(a, out):
+    c, p = a["child"], a["parent"]
+    cl, pl = c["max"] > 1, p["max"] > 1
+    branch = "widen-parent" if cl and not pl and p["max"] != 0 else "widen-child" if not cl and c["max"] != 0 and pl else "same"
+    kept = "kept" if isinstance(out, dict) and out.get("ok", {}).get("child") else "removed"
+    return f"{branch}/{kept}"
+
+
+def classify_restrict(a, out):
+    base = {o["name"] for o in a["base"]}
+    own = [o["name"] for o in a["own"]]
+    return f"base={len(base)}/own={len(own)}/{'new-name' if any(n not in base for n in own) else 'subset'}/{'omits' if base - set(own) else 'all'}" + ("/unmodelled" if isinstance(out, dict) and "unmodelled" in out else "")
+
+
+def classify_subst(a, out):
+    heads = {h for _, h in a["subs"]}
+    chain = any(h in {m for m, _ in a["subs"]} for h in heads)
+    return f"members={min(len(a['subs']), 4)}/{'transitive' if chain else 'flat'}/refs={min(len(a['refs']), 3)}"
+
+
 CORRS = [
-    Corr("gen.xsd_sites", gen_sites, impl_sites, canon=canon_sites, describe="SchemaParser+SchemaMapper element sites and paths vs model"),
-    Corr("gen.calc_paths", stage_gen("calc"), stage_impl("calc"), describe="CalculateAttributePaths.process vs model"),
-    Corr("gen.effective", stage_gen("effective"), stage_impl("effective"), describe="UpdateAttributesEffectiveChoice.process vs model"),
-    Corr("gen.merge", stage_gen("merge"), stage_impl("merge"), describe="MergeAttributes.process vs model"),
-    Corr("gen.occurs", gen_occurs, stage_impl("all"), describe="the three handlers in container order vs model"),
+    Corr("gen.xsd_sites", gen_sites, impl_sites, canon=canon_sites, classify=classify_particle, describe="SchemaParser+SchemaMapper element sites and paths vs model"),
+    Corr("gen.calc_paths", stage_gen("calc"), stage_impl("calc"), classify=classify_sites, describe="CalculateAttributePaths.process vs model"),
+    Corr("gen.effective", stage_gen("effective"), stage_impl("effective"), classify=classify_sites, describe="UpdateAttributesEffectiveChoice.process vs model"),
+    Corr("gen.merge", stage_gen("merge"), stage_impl("merge"), classify=classify_sites, describe="MergeAttributes.process vs model"),
+    Corr("gen.occurs", gen_occurs, stage_impl("all"), classify=classify_sites, describe="the three handlers in container order vs model"),
     Corr("gen.xsd_occurs", gen_fields, impl_fields, canon=canon_fields,
-         describe="whole real pipeline + stand-in renderer: list-ness / requiredness of generated fields vs model"),
+         classify=classify_particle, describe="whole real pipeline + stand-in renderer: list-ness / requiredness of generated fields vs model"),
     Corr("gen.grp_sites", gen_gsites, impl_gsites, canon=canon_gsites,
          nontrivial=lambda a, o: "ref" in json.dumps(a["types"]) or "all" in json.dumps(a),
-         describe="named groups / xs:all: SchemaParser + SchemaMapper + ClassContainer UNGROUP step (FlattenAttributeGroups, copy_group_attributes) -> attrs and paths of every class vs model"),
+         classify=classify_gschema, describe="named groups / xs:all: SchemaParser + SchemaMapper + ClassContainer UNGROUP step (FlattenAttributeGroups, copy_group_attributes) -> attrs and paths of every class vs model"),
     Corr("gen.grp_calc", gen_gcalc, impl_gcalc, canon=canon_gsites,
-         describe="one CalculateAttributePaths handler over all the classes of a schema (paths with shared group ids) vs model"),
+         classify=classify_gclasses, describe="one CalculateAttributePaths handler over all the classes of a schema (paths with shared group ids) vs model"),
     Corr("gen.grp_occurs", gen_gsites, lambda a: impl_gsites(a, upto="flatten"), canon=canon_gsites,
-         describe="named groups / xs:all: real container through the FLATTEN step vs model (UNGROUP + the three handlers)"),
+         classify=classify_gschema, describe="named groups / xs:all: real container through the FLATTEN step vs model (UNGROUP + the three handlers)"),
     Corr("gen.grp_fields", gen_gfields, impl_gfields, canon=canon_gfields,
-         describe="named groups / xs:all: whole real pipeline + stand-in renderer: list-ness / requiredness of the fields of every class vs model"),
+         classify=classify_gschema, describe="named groups / xs:all: whole real pipeline + stand-in renderer: list-ness / requiredness of the fields of every class vs model"),
     Corr("gen.attr_map", gen_attr_decls, impl_attr_map,
-         describe="use/default/fixed: SchemaParser + SchemaMapper.build_class_attribute (+ CalculateAttributePaths) on xs:attribute / xs:element declarations vs model"),
+         classify=classify_decls, describe="use/default/fixed: SchemaParser + SchemaMapper.build_class_attribute (+ CalculateAttributePaths) on xs:attribute / xs:element declarations vs model"),
     Corr("gen.attr_sanitize", gen_attr_sanitize, impl_attr_sanitize,
-         describe="SanitizeAttributesDefaultValue.process_attribute on constructed attrs vs model"),
+         classify=classify_sanitize, describe="SanitizeAttributesDefaultValue.process_attribute on constructed attrs vs model"),
     Corr("gen.attr_fields", gen_attr_fields, impl_attr_fields,
-         describe="use/default/fixed: whole real pipeline + stand-in renderer: presence, init and default of the dataclass field of every declaration vs model"),
+         classify=classify_decls, describe="use/default/fixed: whole real pipeline + stand-in renderer: presence, init and default of the dataclass field of every declaration vs model"),
     Corr("gen.override", gen_override, impl_override,
-         describe="ValidateAttributesOverrides.validate_override on constructed child/parent attrs vs model"),
+         classify=classify_override, describe="ValidateAttributesOverrides.validate_override on constructed child/parent attrs vs model"),
     Corr("gen.restrict_attrs", gen_restrict, impl_restrict_attrs,
-         describe="ValidateAttributesOverrides.process on a constructed class with a restriction base (validate_attrs + prohibit_parent_attrs) vs model"),
+         classify=classify_restrict, describe="ValidateAttributesOverrides.process on a constructed class with a restriction base (validate_attrs + prohibit_parent_attrs) vs model"),
     Corr("gen.restrict_fields", gen_restrict_fields, impl_restrict_fields, compare=lambda m, i, a: "unmodelled" in i or m == i,
-         describe="complexContent restriction: whole real pipeline + stand-in renderer, the dataclass fields of base and derived class vs model"),
+         classify=classify_restrict, describe="complexContent restriction: whole real pipeline + stand-in renderer, the dataclass fields of base and derived class vs model"),
     Corr("gen.ext_fields", gen_ext, impl_ext_fields, canon=canon_ext_fields, compare=lambda m, i, a: "unmodelled" in i or m == i,
-         describe="complexContent extension: whole real pipeline + stand-in renderer, list-ness / requiredness of inherited + own fields of the derived class vs model"),
+         classify=lambda a, o: classify_particle({'particle': a['base']}, o), describe="complexContent extension: whole real pipeline + stand-in renderer, list-ness / requiredness of inherited + own fields of the derived class vs model"),
     Corr("gen.subst_sites", gen_subst_sites, impl_subst_sites, canon=canon_by_name,
          nontrivial=lambda a, o: bool(a["subs"]),
-         describe="AddAttributeSubstitutions.process on a constructed class in a real container (global elements with substitutionGroup) vs model"),
+         classify=classify_subst, describe="AddAttributeSubstitutions.process on a constructed class in a real container (global elements with substitutionGroup) vs model"),
     Corr("gen.subst_fields", gen_subst_fields, impl_subst_fields, canon=canon_fields,
          nontrivial=lambda a, o: bool(a["subs"]),
-         describe="substitution groups: whole real pipeline + stand-in renderer: list-ness / requiredness of the fields (head and members) vs model"),
+         classify=classify_subst, describe="substitution groups: whole real pipeline + stand-in renderer: list-ness / requiredness of the fields (head and members) vs model"),
     Corr("gen.ns_attrs", gen_ns, impl_ns_attrs, classify=classify_ns,
          describe="namespaces and forms: SchemaParser (forms, chameleon target namespace) + SchemaMapper.element_namespace for the class and every declaration vs model"),
     Corr("gen.ns_meta", gen_ns_meta, impl_ns_meta,
